@@ -9,10 +9,12 @@ def run(c):
               "loader) and are compared with the model's handleGetTable in order-preserving abstract times; every other case is one generated table request: "
               "1-3 contiguous LODs, 0-5 storage rows per second with tags in 0..3 and string-top values from a 5-string pool, 1-3 handler-whats "
               "(8-18 requested functions give 2-3), row markers copied from storage rows (45%), random (25%) or absent, ascending/descending, "
-              "limit 1..6 / total / large, storage answers consistent across functions (75%) or thinned per function, sorted (85%: the rows of one "
+              "limit 1..6 / total / large, tag values small (0..3) or, in a quarter of the cases, raw 64-bit values over the whole int64 range "
+              "(MinInt64, MaxInt64, +-6e18, +-2^62, pairs more than 2^63 apart), storage answers consistent across functions (75%) or thinned per function, sorted (85%: the rows of one "
               "second in the order ClickHouse gives them for the ORDER BY text the real query builder generates for this request) or shuffled, "
               "clean (92%) or with duplicate keys / ungrouped tags / rows outside their LOD, 1/60 answers are errors; 1-4 direct limitQueries calls "
-              "per case plus one getTableFromLODs call. Non-trivial = a marker has the time of a stored row (window boundary inside a time group), "
+              "per case plus one getTableFromLODs call, plus 4 direct calls of the real queryTableRows.Less and 3 of the real lessThan on boundary "
+              "int64 pairs (ops cmp/mlt, compared with the model's order on unbounded integers and with a reference lexicographic order). Non-trivial = a marker has the time of a stored row (window boundary inside a time group), "
               "or NaN padding happened with >1 handler-what, or has-more was set with >1 LOD, or a descending handleGetTable case with rows in both LODs; "
               "distinct by op-sequence hash")
     c.assumptions += [
@@ -54,7 +56,9 @@ META = {
                   "property oracle on the real results"),
     "text": ("Kernel-checked for every input: limitQueries returns exactly the first `limit` rows of the window in visiting order and has-more "
              "iff the window holds more (limitQueries_window_limit); every table row lies in the window (rows_in_window); row keys are unique "
-             "(rows_unique_by_time_tags); the result is ordered by the visible key in the requested direction (rows_sorted); the table holds exactly "
+             "(rows_unique_by_time_tags); the result is ordered by the visible key in the requested direction (rows_sorted), where the comparator is "
+             "exactly the lexicographic order on (time, number of tags, tag values as unbounded integers, skey) and a strict total order "
+             "(less_lex, less_total) — the real comparators are checked against it on boundary int64 pairs; the table holds exactly "
              "the pages of the requested functions across the LOD split and has-more is exact (table_page); every row has one column per requested "
              "function (one_column_per_function) and every cell block is the storage values of the row with that key on the page of that function, "
              "NaN in all its columns iff that page has no row with the key (cell_content, cell_content_page, cellBlock_value, cellBlock_nan_iff) — "
